@@ -404,15 +404,28 @@ func runOnce(prefix []int, body func(afterReturn *bool) string) execResult {
 // with at most bound preemptions.  visit is called for every execution.
 func explore(body func(afterReturn *bool) string, bound int, maxExec int, visit func(r execResult)) (executions int, complete bool) {
 	complete = true
+	stop := false
 	var rec func(prefix []int, preempt int)
 	rec = func(prefix []int, preempt int) {
 		if executions >= maxExec {
 			complete = false
 			return
 		}
+		if stop {
+			return
+		}
 		r := runOnce(prefix, body)
 		executions++
 		visit(r)
+		if r.blocked {
+			// a goroutine is stuck in an operation the scheduler does not own: every further schedule
+			// of this input would wait for the 20 s limit again
+			complete = false
+			stop = true
+		}
+		if stop {
+			return
+		}
 		for i := len(prefix); i < len(r.trace); i++ {
 			for alt := 1; alt < r.nalt[i]; alt++ {
 				cost := preempt
